@@ -45,6 +45,7 @@ HOSTILE = {
                '9' * 4301, '1' + '0' * 5000,
                '-0', '007', '1e3', '9223372036854775807',
                '9223372036854775808', '18446744073709551615',
+               '236854775807', '68719476736', '1099511627776',
                '18446744073709551616'],
     'indent': ['abc', '-3', '0', '1.5', '99999999999999999999', '5',
                '4294967296', 'x'],
